@@ -2,7 +2,7 @@
 
 use super::accum::*;
 use super::c08::case_json;
-use crate::dynshape::Shape;
+use crate::dynshape::{Shape, Value};
 use crate::refcobs;
 use crate::refcodec::{ref_decode, DecErr};
 use crate::runner::{fail, hex, CaseResult, Ctx, Local};
@@ -222,6 +222,26 @@ pub fn run(ctx: &Ctx) {
         |((n, shape, stream), cuts, use_ref), l| check_history(*n, shape, stream, cuts, *use_ref, l),
     );
     // very long noisy histories on one accumulator: > 65536 discarded segments of each kind
+    // an over-long segment followed by a good frame, read with every fixed read size (reads larger than the capacity included)
+    {
+        const NS: [usize; 8] = [1, 2, 3, 4, 5, 8, 13, 16];
+        let mut cases: Vec<(usize, usize, usize, bool)> = vec![];
+        for &n in &NS {
+            for k in [n + 1, 2 * n, 2 * n + 1, 2 * n + 2, 3 * n + 1, 4 * n + 3, 7 * n] {
+                for r in 1..=(k + 6) {
+                    cases.push((n, k, r, (n + k + r) % 2 == 0));
+                }
+            }
+        }
+        let cases = &cases;
+        ctx.par_range("overlong-then-frame-every-read-size", cases.len() as u64, move |i, l| {
+            let (n, k, r, use_ref) = cases[i as usize];
+            let shape = Shape::U8;
+            let stream = build_stream(&shape, &[Seg::Long(k, 0x37), Seg::Valid(Value::U(5)), Seg::Long(k + 1, 0x11), Seg::Valid(Value::U(200))], None);
+            let cuts: Vec<usize> = (1..stream.len()).filter(|c| c % r == 0).collect();
+            check_history(n, &shape, &stream, &cuts, use_ref, l)
+        });
+    }
     ctx.par_range("long-noisy-histories", 6, |i, l| {
         let (n, shape, unit): (usize, Shape, Vec<u8>) = match i {
             0 => (8, Shape::U8, vec![0]),                      // empty frames: one DeserError each
